@@ -1,0 +1,149 @@
+//! `LeaderState<T>` accessors for out-of-tree Kani harnesses (child module of `leader_state`, so it can
+//! reach private fields and fns). Compiled ONLY under `--cfg kani`. Thin wrappers, no logic.
+use super::*;
+
+/// What a harness can observe of one pending write batch.
+pub struct VerifWriteMeta {
+    pub start_idx: u64,
+    pub n_senders: usize,
+    pub wait_for_apply: bool,
+}
+
+/// The real (private) `merge_batch_to_write_metadata`; the returned senders are the real ones, in order.
+#[allow(clippy::type_complexity)]
+pub fn merge_batch_to_write_metadata<T: TypeConfig>(
+    batch: Vec<RaftRequestWithSignal>,
+    start_idx: u64,
+) -> (
+    Vec<EntryPayload>,
+    Option<(
+        u64,
+        Vec<MaybeCloneOneshotSender<std::result::Result<ClientResponse, Status>>>,
+        bool,
+    )>,
+) {
+    let (p, m) = LeaderState::<T>::merge_batch_to_write_metadata(batch, start_idx);
+    (p, m.map(|m| (m.start_idx, m.senders, m.wait_for_apply)))
+}
+
+pub fn write_op_to_proto(op: crate::client::WriteOperation) -> d_engine_proto::client::WriteCommand {
+    super::write_op_to_proto(op)
+}
+
+impl<T: TypeConfig> LeaderState<T> {
+    pub fn verif_match_index_mut(&mut self) -> &mut HashMap<u32, u64> {
+        &mut self.match_index
+    }
+
+    pub fn verif_cluster_metadata_mut(&mut self) -> &mut ClusterMetadata {
+        &mut self.cluster_metadata
+    }
+
+    pub fn verif_cluster_metadata(&self) -> &ClusterMetadata {
+        &self.cluster_metadata
+    }
+
+    pub fn verif_calculate_new_commit_index(
+        &self,
+        raft_log: &Arc<ROF<T>>,
+    ) -> Option<u64> {
+        self.calculate_new_commit_index(raft_log)
+    }
+
+    pub fn verif_update_peer_index(
+        &mut self,
+        follower_id: u32,
+        update: &PeerUpdate,
+    ) {
+        self.update_peer_index(follower_id, update)
+    }
+
+    pub fn verif_determine_read_policy(
+        &self,
+        req: &ClientReadRequest,
+    ) -> ServerReadConsistencyPolicy {
+        self.determine_read_policy(req)
+    }
+
+    pub fn verif_is_learner_caught_up(
+        &self,
+        match_index: Option<u64>,
+        leader_commit: u64,
+        threshold: u64,
+    ) -> bool {
+        self.is_learner_caught_up(match_index, leader_commit, threshold)
+    }
+
+    /// Register a pending write batch exactly as Phase 2 of `execute_and_process_raft_rpc` does
+    /// (key = start_idx + senders.len() - 1).
+    pub fn verif_insert_pending_client_writes(
+        &mut self,
+        start_idx: u64,
+        senders: Vec<MaybeCloneOneshotSender<std::result::Result<ClientResponse, Status>>>,
+        wait_for_apply: bool,
+    ) {
+        let end_log_index = start_idx + senders.len() as u64 - 1;
+        self.pending_client_writes.insert(
+            end_log_index,
+            WriteMetadata {
+                start_idx,
+                senders,
+                wait_for_apply,
+                deadline: Instant::now(),
+            },
+        );
+    }
+
+    pub fn verif_drain_pending_client_writes(
+        &mut self,
+        new_commit: u64,
+    ) {
+        self.drain_pending_client_writes(new_commit)
+    }
+
+    pub fn verif_drain_pending_writes_with_error(
+        &mut self,
+        error_code: ErrorCode,
+    ) {
+        self.drain_pending_writes_with_error(error_code)
+    }
+
+    pub fn verif_pending_client_writes_len(&self) -> usize {
+        self.pending_client_writes.len()
+    }
+
+    pub fn verif_pending_write_apply_has(
+        &self,
+        idx: u64,
+    ) -> bool {
+        self.pending_write_apply.contains_key(&idx)
+    }
+
+    pub fn verif_pending_write_apply_len(&self) -> usize {
+        self.pending_write_apply.len()
+    }
+
+    pub fn verif_propose_buffer_len(&self) -> usize {
+        self.propose_buffer.len()
+    }
+
+    pub fn verif_read_queue_lens(&self) -> (usize, usize, usize) {
+        (
+            self.linearizable_read_buffer.len(),
+            self.lease_read_queue.len(),
+            self.eventual_read_queue.len(),
+        )
+    }
+
+    pub fn verif_pending_commit_action_keys(&self) -> Vec<u64> {
+        self.pending_commit_actions.keys().copied().collect()
+    }
+
+    pub fn verif_update_lease_timestamp(
+        &self,
+        send_ts: u64,
+        lease_duration_ms: u64,
+    ) {
+        self.update_lease_timestamp(send_ts, lease_duration_ms)
+    }
+}
